@@ -13,6 +13,13 @@ def okindOf : String → Option OKind
   | "sg" => some .syncGauge
   | _ => none
 
+/-- a kind token with the suffix `d` is the double flavour of the instrument (same model: a value is the measurement in
+    units of 2^-10); `(kind, double?)` -/
+def okindFlavour (s : String) : Option (OKind × Bool) :=
+  match okindOf s with
+  | some k => some (k, false)
+  | none => if s.length = 3 ∧ s.endsWith "d" then (okindOf (s.take 2).toString).map (·, true) else none
+
 def okindCode : OKind → String
   | .counter => "oc"
   | .updown => "ou"
@@ -49,10 +56,10 @@ def parseScript : List String → Option (List (Nat × List (Nat × Int)))
     | _ => none
 
 /-- `dead`: instruments whose handle was released (`destroy`): nothing can be done through a released handle -/
-def stepOp (c : Cfg) (m : AMeter) (dead : List Nat) : List String → Option (AMeter × String)
+def stepOp (c : Cfg) (m : AMeter) (dead : List Nat) (dbls : List Bool) : List String → Option (AMeter × String)
   | ["create", k] => do
-    let k ← okindOf k
-    pure (amstep c m (.create k), s!"i{m.kinds.length}")
+    let k ← okindFlavour k
+    pure (amstep c m (.create k.1), s!"i{m.kinds.length}")
   | ["addcb", i, cb] => do
     let i ← i.toNat?
     let cb ← cb.toNat?
@@ -79,21 +86,24 @@ def stepOp (c : Cfg) (m : AMeter) (dead : List Nat) : List String → Option (AM
     if r ≥ c.n then none else
     let res := amcollect c m r (fun cb => (sc.lookup cb).getD [])
     let outs := (List.range m.kinds.length).filterMap fun i =>
-      (res.2.2 i).map fun o => showOut s!"{i}.{okindCode (m.kinds.getD i .counter)}" o
+      (res.2.2 i).map fun o => showOut s!"{i}.{okindCode (m.kinds.getD i .counter)}{if dbls.getD i false then "d" else ""}" o
     pure (res.1, "calls=[" ++ ",".intercalate (res.2.1.map toString) ++ "] [" ++
       " | ".intercalate (C06.sortBy (fun (a b : String) => a < b) outs) ++ "]")
   | _ => none
 
-def run (c : Cfg) : AMeter → List Nat → List (List String) → List String → Option (List String)
-  | _, _, [], acc => some acc.reverse
-  | m, dead, op :: ops, acc =>
-    match stepOp c m dead op with
+def run (c : Cfg) : AMeter → List Nat → List Bool → List (List String) → List String → Option (List String)
+  | _, _, _, [], acc => some acc.reverse
+  | m, dead, dbls, op :: ops, acc =>
+    match stepOp c m dead dbls op with
     | none => none
     | some (m', o) =>
       let dead' := match op with
         | ["destroy", i] => (i.toNat?.getD 0) :: dead
         | _ => dead
-      run c m' dead' ops (o :: acc)
+      let dbls' := match op with
+        | ["create", k] => dbls ++ [((okindFlavour k).map (·.2)).getD false]
+        | _ => dbls
+      run c m' dead' dbls' ops (o :: acc)
 
 def handle (toks : List String) : String :=
   match splitOps toks with
@@ -102,7 +112,7 @@ def handle (toks : List String) : String :=
     | none => "bad-op"
     | some temps =>
       if temps.length = 0 ∨ temps.length > 4 then "bad-op" else
-      match run ⟨temps⟩ AMeter.init [] ops ["ok"] with
+      match run ⟨temps⟩ AMeter.init [] [] ops ["ok"] with
       | none => "bad-op"
       | some outs => " ; ".intercalate outs
   | _ => "bad-op"
